@@ -30,10 +30,16 @@ pub fn handle(parts: &[&str], out: &mut impl Write) {
     out.flush().unwrap();
     let r = crate::guard(|| -> Option<String> {
         match parts[2] {
-            "extrude" if parts.len() == 6 => {
+            "extrude" if parts.len() == 6 || parts.len() == 7 => {
                 let w: u32 = parts[3].parse().ok()?;
                 let h: u32 = parts[4].parse().ok()?;
-                let img = image_from(w, h, &crate::unhex(parts[5])?)?;
+                // optional 7th field: spare bytes appended to the backing buffer (RgbaImage::from_raw
+                // accepts a buffer that is larger than the image)
+                let mut buf = crate::unhex(parts[5])?;
+                if parts.len() == 7 {
+                    buf.extend(crate::unhex(parts[6])?);
+                }
+                let img = image_from(w, h, &buf)?;
                 Some(format!("extrude {}", crate::image_str(true, &extrude_border(img))))
             }
             "mapper" if parts.len() == 7 => {
